@@ -7,6 +7,7 @@ SPEC = {
         {"comp": "sent_packets", "module": "QV.Model.SentPackets", "quick": 800, "thorough": 20000},
         {"comp": "inflight", "module": "QV.Model.InFlight", "quick": 800, "thorough": 20000},
         {"comp": "sim_c12", "module": "QV.Sys.MonC12", "quick": 60, "thorough": 1500},
+        {"comp": "sim_c12m", "module": "QV.Sys.MonC12", "quick": 30, "thorough": 600},
     ],
     "assumptions": [
         "float arithmetic of the controllers is not modelled: every float-derived quantity is an oracle value; the theorems quantify over all oracle values, the correspondence reads them back from the implementation (relational tie for Cubic and BBR; exact IEEE f32 result for NewReno's default factor 0.5)",
